@@ -34,7 +34,9 @@ def plan(tier):
 def signatures():
     sigs = []
     pos = [()] + [(x,) for x in ALPHA] + [(x, y) for x in ALPHA for y in ALPHA]
+    # 3 positionals with a None among the first two (the separator the key format uses is a bare None)
     pos += [(x, None, y) for x in ALPHA for y in ALPHA]
+    pos += [(None, x, y) for x in ALPHA for y in ALPHA if x is not None]
     kws = [{}] + [{'a': x} for x in ALPHA] + [{'b': x} for x in ALPHA] + [{'a': x, 'b': y} for x in ALPHA for y in ALPHA]
     for p in pos:
         for k in kws:
@@ -74,8 +76,29 @@ class Probe:
         return probe_f
 
 
-def classify(sig_a, sig_b):
-    """K3: the collision needs a positional None (separator ambiguity)."""
+def released_key(sig, typed, ignore):
+    """The released key format, written out independently: base + positionals + (None,) + sorted keyword
+    items (+ types when typed), after dropping ignored positions/names."""
+    args, kwargs = sig
+    a = tuple(v for i, v in enumerate(args) if i not in ignore)
+    key = a + (None,)
+    items = sorted((n, v) for n, v in kwargs.items() if n not in ignore)
+    for n, v in items:
+        key += (n, v)
+    if typed:
+        key += tuple(type(v) for v in a) + tuple(type(v) for _, v in items)
+    return key
+
+
+def classify(sig_a, sig_b, typed=False, ignore=()):
+    """K3 is the ambiguity of the RELEASED key format: a positional None can be read as the separator.  A
+    collision is classified as K3 only if the two signatures already map to one key under that format (compared
+    type-sensitively, as pickled keys are) and one of them has a positional None; any other collision is new."""
+    if sig_a is None or sig_b is None:
+        return None
+    from ..observe import ident
+    if ident(released_key(sig_a, typed, ignore)) != ident(released_key(sig_b, typed, ignore)):
+        return None
     for p, k in (sig_a, sig_b):
         if any(x is None for x in p):
             return 'memoize-positional-none-separator'
@@ -132,6 +155,7 @@ def sweep(dc, sc, res, kind, typed, ignore, named, sigs, label):
         opts['version'] = 2
     w = deco(f, **opts)
     seen_tokens = {}      # token -> first signature
+    all_sigs = {}         # token -> every signature seen with it
     seen_keys = {}        # serialized key -> (token, signature)
     try:
         for args, kwargs in sigs:
@@ -149,7 +173,14 @@ def sweep(dc, sc, res, kind, typed, ignore, named, sigs, label):
             executed = p.execs - before
             if got != want:
                 other = seen_tokens.get(got)
-                sig = classify((args, kwargs), other) if other else None
+                # several earlier signatures may own that token (1 and 1.0 are one token when untyped): the entry
+                # that was hit is the one whose released key equals this call's
+                sig = None
+                for cand in all_sigs.get(got, ()):
+                    sig = classify((args, kwargs), cand, typed, ignore)
+                    if sig:
+                        other = cand
+                        break
                 res.violation('%s.memoize wrapper%r%r returned %r, the function returns %r (entry shared with call %r)' % (
                     kind, args, kwargs, got, want, other),
                     {'label': label, 'typed': typed, 'ignore': sorted(map(str, ignore)), 'named': named,
@@ -161,13 +192,14 @@ def sweep(dc, sc, res, kind, typed, ignore, named, sigs, label):
                 if repr(seen_tokens[want]) == repr((args, kwargs)):
                     res.violation('repeat of %r%r executed the function again' % (args, kwargs), {'label': label})
             seen_tokens.setdefault(want, (args, kwargs))
+            all_sigs.setdefault(want, []).append((args, kwargs))
             kb = key_bytes(w.__cache_key__(*args, **kwargs))
             res.count('key_pairs_compared', len(seen_keys))
             prev = seen_keys.get(kb)
             if prev is not None and prev[0] != want:
                 res.violation('signatures %r and %r%r have one serialized cache key but must not share an entry' % (
                     prev[1], args, kwargs), {'label': label, 'typed': typed, 'ignore': sorted(map(str, ignore))},
-                    signature=classify((args, kwargs), prev[1]))
+                    signature=classify((args, kwargs), prev[1], typed, ignore))
             seen_keys.setdefault(kb, (want, (args, kwargs)))
         res.count('signatures', len(sigs))
         # identical repeats are served from the cache
